@@ -15,7 +15,9 @@ EXPLANATION = (
     "raise before the jet call (enumerated over a grid of coefficient counts and lift orders), time is a differentiated input of the "
     "lift with series (1,0,...), output-index bookkeeping of lifted ODEs/residuals, TS1 == residual constraint of u^(k) - f, stacked "
     "residuals evaluate each part on its own coefficients, and the linearisation point handed to the Jacobian handler is the point "
-    "contracted with the Jacobian in the offset f(xi) - J xi (dense: Taylor point; isotropic: trace / d; block-diagonal: per-dimension blocks)."
+    "contracted with the Jacobian in the offset f(xi) - J xi (dense: Taylor point; isotropic: trace / d; block-diagonal: per-dimension blocks).  "
+    "The nine problem constructors (ode*, ode_autonomous*, residual_position/velocity/acceleration) are cross-checked as siblings: coefficients in order, "
+    "the caller's time, arity = declared inputs, output index = arity, handler passed through / documented default."
 )
 LEVEL = "other"
 TECHNIQUE = "abstract interpretation over the AST: differentiation-coverage analysis, concrete evaluation of trace-time statics over a finite grid, provenance/value-number identity of linearisation points, class-hierarchy analysis"
@@ -101,9 +103,13 @@ def run(chk, S: Session):
     r4 = chk.rule("R-C11-4", "constraint_ode_ts1 == constraint_residual(residual_from_ode(ode)); residual_from_ode / residual_from_stack structure", floor=8)
     r5 = chk.rule("R-C11-5", "linearisation-point consistency of every linearize(); TS0 selects output rows and evaluates f at the mean", floor=14)
 
+    r6 = chk.rule("R-C11-6", "every problem constructor hands the coefficients to the user function in order, with the caller's time, and declares the "
+                  "matching arity / output index / Jacobian handler (sibling agreement of the nine constructors)", floor=40)
+
     lift_rules(chk, S, r1, r2, r3)
     residual_rules(chk, S, r4)
     linearize_rules(chk, S, r5)
+    constructor_rules(chk, S, r6)
 
 
 # ---------------------------------------------------------------------------
@@ -273,6 +279,83 @@ def residual_rules(chk, S, r4):
 
 
 # ---------------------------------------------------------------------------
+CONSTRUCTORS = [
+    # name, kind, arity (None: keyword num_tcoeffs_in_args), time-dependent
+    ("ode", "JetOde", 1, True),
+    ("ode_order_two", "JetOde", 2, True),
+    ("ode_order_arbitrary", "JetOde", None, True),
+    ("ode_autonomous", "JetOdeAutonomous", 1, False),
+    ("ode_autonomous_order_two", "JetOdeAutonomous", 2, False),
+    ("ode_autonomous_order_arbitrary", "JetOdeAutonomous", None, False),
+    ("residual_position", "JetResidual", 1, True),
+    ("residual_velocity", "JetResidual", 2, True),
+    ("residual_acceleration", "JetResidual", 3, True),
+]
+
+
+def constructor_rules(chk, S, r6):
+    m = S.p.module(PROBLEMS)
+    exported = set(m.all_names or []) if hasattr(m, "all_names") else set()
+    known = {c[0] for c in CONSTRUCTORS} | {"residual_from_ode", "residual_from_stack"}
+    # a constructor added later must be added to the table (never silently unchecked)
+    cands = [n for n in m.functions if (n.startswith("ode") or n.startswith("residual_")) and "." not in n]
+    for n in cands:
+        if n not in known:
+            r6.unknown(f"constructor {n}", "public problem constructor not in the checker's table", PROBLEMS)
+    for name, cls, arity, timed in CONSTRUCTORS:
+        if name not in m.functions:
+            raise AnalysisError(f"{PROBLEMS}.{name} not found (anchor vanished)")
+        for k in ([arity] if arity is not None else [1, 2, 3, 4]):
+            for jac in (A("jac"), None):
+                it = S.interp()
+                f = it.function_value(f"{PROBLEMS}.{name}")
+                kw = {}
+                if jac is not None:
+                    kw["jacobian"] = jac
+                if arity is None:
+                    kw["num_tcoeffs_in_args"] = k
+                cfg = {"constructor": name, "arity": k, "jacobian": "given" if jac is not None else "default"}
+                try:
+                    obj = it.call(f, [A("userfn")], kw, "<harness>")
+                except (RaiseSignal, AnalysisError) as e:
+                    r6.fail(f"{name} construct", f"construction failed: {e}", PROBLEMS, cfg)
+                    continue
+                ok = isinstance(obj, Rec) and obj.cls.info.name == cls and obj.fields.get("num_tcoeffs_in_args") == k
+                r6.require(ok, f"{name} record", f"{cls} with {k} inputs", f"{T.show(obj, 2)}", PROBLEMS, cfg)
+                if not ok:
+                    continue
+                if cls != "JetResidual":
+                    r6.require(obj.fields.get("tcoeff_indices_output") == [k], f"{name} output index", f"constrains coefficient {k}", f"tcoeff_indices_output = {obj.fields.get('tcoeff_indices_output')}", PROBLEMS, cfg)
+                j = obj.fields.get("jacobian")
+                if jac is not None:
+                    r6.require(j is jac, f"{name} handler", "the caller's Jacobian handler", f"{T.show(j, 2)}", PROBLEMS, cfg)
+                else:
+                    r6.require(isinstance(j, Rec) and j.cls.info.name == "jacobian_monte_carlo_rev", f"{name} default handler", "jacobian_monte_carlo_rev()", f"{T.show(j, 2)}", PROBLEMS, cfg)
+                    continue
+                coords = [A(f"c{i}") for i in range(k)]
+                fn = obj.fields["residual_function"] if cls == "JetResidual" else obj.fields["vector_field"]
+                try:
+                    val = it.call(fn, [], {"jet_coords": coords, "t": A("t")}, "<harness>")
+                except (RaiseSignal, AnalysisError) as e:
+                    r6.fail(f"{name} evaluation", f"evaluation failed: {e}", PROBLEMS, cfg)
+                    continue
+                want = T.mk("call", (A("userfn"), *coords), {"t": A("t")} if timed else {})
+                if cls == "JetOdeAutonomous":
+                    good = val is want or (isinstance(val, list) and len(val) == 1 and val[0] is want)
+                else:
+                    good = isinstance(val, list) and len(val) == 1 and val[0] is want
+                r6.require(good, f"{name} evaluation", "user function on (c0, ..., c_{k-1})" + (" at the caller's t" if timed else ""), f"evaluates {T.show(val, 3)}; expected [{T.show(want, 3)}]", PROBLEMS, cfg)
+                # more coefficients than the arity: fixed-arity wrappers must reject them, arbitrary-order wrappers use the first k
+                more = [*coords, A("extra")]
+                try:
+                    val2 = it.call(fn, [], {"jet_coords": more, "t": A("t")}, "<harness>")
+                    good2 = (val2 is want) or (isinstance(val2, list) and len(val2) == 1 and val2[0] is want)
+                    r6.require(good2, f"{name} surplus coefficients", "uses the first k coefficients", f"{k + 1} coefficients evaluate {T.show(val2, 3)}", PROBLEMS, cfg)
+                except RaiseSignal:
+                    r6.require(arity is not None, f"{name} surplus coefficients", "rejected (unpacking error)", "arbitrary-order wrapper rejects surplus coefficients", PROBLEMS, cfg)
+                S.absorb(it)
+
+
 def _rfun_list():
     """A residual function with the documented output structure: a list holding one array."""
     return HarnessFn("rfun", lambda it, a, kw, site: [T.mk("call", (A("rfun"), *a), kw, meta={"array": True})])
